@@ -37,6 +37,7 @@ type c17world struct {
 	ref     *ref.Filter
 	calls   []string // "termHeight:msgID" in order
 	marked  map[int]bool
+	vmarked map[int]bool
 	fired   map[int]bool
 	heights map[int]uint64
 	nextID  int
@@ -50,6 +51,10 @@ type c17world struct {
 func (h *c17handler) HandleConsensusMessage(m interfaces.ConsensusMessage) error {
 	id := int(m.View())
 	h.w.calls = append(h.w.calls, fmt.Sprintf("%d:%d", h.height, id))
+	if h.w.vmarked[id] && h.height == uint64(h.w.st.Height()) {
+		// what an accepted NEW_VIEW does: the term moves to the next view of the SAME height
+		h.w.st.SetView(h.w.st.View() + 1)
+	}
 	if h.w.marked[id] && !h.w.fired[id] && h.height == uint64(h.w.st.Height()) {
 		// what a commit does: the worker enters the next height re-entrantly
 		h.w.fired[id] = true
@@ -60,7 +65,7 @@ func (h *c17handler) HandleConsensusMessage(m interfaces.ConsensusMessage) error
 }
 
 func newC17world() *c17world {
-	w := &c17world{st: state.NewState(), ref: ref.NewFilter(), marked: map[int]bool{}, fired: map[int]bool{}, heights: map[int]uint64{}}
+	w := &c17world{st: state.NewState(), ref: ref.NewFilter(), marked: map[int]bool{}, vmarked: map[int]bool{}, fired: map[int]bool{}, heights: map[int]uint64{}}
 	me := primitives.MemberId("me")
 	cfg := &interfaces.Config{Membership: &kit.Membership{Me: me}}
 	w.f = rawmessagesfilter.NewConsensusMessageFilter(kit.Instance, me, L.NewLhLogger(cfg, w.st), w.st)
@@ -152,6 +157,8 @@ func (w *c17world) apply(o c17op) {
 			fac, fm.Mine = w.mine, true
 		case "marked":
 			w.marked[id] = true
+		case "vmarked":
+			w.vmarked[id] = true
 		}
 		w.heights[id] = uint64(hgt)
 		msg := fac.CreatePrepareMessage(primitives.BlockHeight(hgt), primitives.View(id), []byte("h")).ToConsensusRawMessage()
@@ -203,7 +210,14 @@ func c17run(ops []c17op) (*c17world, []string, string) {
 	}
 	v := w.check(ops)
 	// forbidden deliveries: own messages, other instances, lower heights (judged at receive time by height rule above)
-	key := w.ref.Dump() + "|" + w.f.VerifDump() + fmt.Sprintf("|h=%d|marks=%v", w.st.Height(), pendingMarks(w))
+	var vm []int
+	for id := range w.vmarked {
+		if w.heights[id] >= uint64(w.st.Height()) {
+			vm = append(vm, int(w.heights[id])-int(w.st.Height()))
+		}
+	}
+	sortInts(vm)
+	key := w.ref.Dump() + "|" + w.f.VerifDump() + fmt.Sprintf("|h=%d v=%d|marks=%v vmarks=%v", w.st.Height(), w.st.View(), pendingMarks(w), vm)
 	return w, v, key
 }
 
@@ -227,10 +241,10 @@ func sortInts(a []int) {
 }
 
 func c17(r *Rec, replay map[string]interface{}) {
-	r.Rule = "BFS over operation sequences on a real RawMessageFilter+State: recv(height h-1..h+3 x {ok, ok+marked(re-entrant advance when handled), other instance, own sender}) and advance(+1..+3) (= SetHeightAndResetView + ConsumeCacheMessages with a recording handler); states de-duplicated by (reference state, real cache dump, height, pending marks); oracle = list-based reference filter. distinct_nontrivial = distinct de-duplicated states whose cache is non-empty"
+	r.Rule = "BFS over operation sequences on a real RawMessageFilter+State: recv(height h-1..h+3 x {ok, ok+marked(re-entrant advance to the next height when handled), ok+vmarked(view of the same height advances when handled), other instance, own sender}) and advance(+1..+3) (= SetHeightAndResetView + ConsumeCacheMessages with a recording handler); states de-duplicated by (reference state, real cache dump, height, pending marks); oracle = list-based reference filter. distinct_nontrivial = distinct de-duplicated states whose cache is non-empty"
 	var alphabet []c17op
 	for _, dh := range []int{0, 1, 2, 3, -1} {
-		for _, v := range []string{"ok", "marked", "badinst", "me"} {
+		for _, v := range []string{"ok", "marked", "vmarked", "badinst", "me"} {
 			alphabet = append(alphabet, c17op{"recv", dh, v})
 		}
 	}
